@@ -402,6 +402,62 @@ func runC10(c *eng.Ctx) {
 		}
 	})
 
+	c.Rule("SYMMETRY", "query/operator{atomic filter results are keyed injectively, same key on both sides}", func() {
+		// injective encoders of a tag filter (a table): stmt.Marshal writes typed JSON with escaping.  Expr.Rewrite is a plain
+		// concatenation — "host in (a,b)" for both in('a,b') and in('a','b'), "host=~a" for both = '~a' and =~ 'a' — and is not.
+		injective := []string{"sql/stmt.Marshal"}
+		w := c.Fn("query/operator.tagValuesLookup.findTagValueIDsByExpr")
+		r := c.Fn("query/operator.seriesFiltering.getSeriesIDsByExpr")
+		var keys []ssa.Value
+		var at []ssa.Instruction
+		for _, b := range eng.BlocksT(w) {
+			for _, in := range b.Instrs {
+				if mu, ok := in.(*ssa.MapUpdate); ok && eng.DependsOnField(mu.Map, "flow.StorageExecuteContext.TagFilterResult") {
+					keys = append(keys, mu.Key)
+					at = append(at, in)
+				}
+			}
+		}
+		nW := len(keys)
+		for _, b := range eng.BlocksT(r) {
+			for _, in := range b.Instrs {
+				if l, ok := in.(*ssa.Lookup); ok && eng.DependsOnField(l.X, "flow.StorageExecuteContext.TagFilterResult") {
+					keys = append(keys, l.Index)
+					at = append(at, in)
+				}
+			}
+		}
+		c.Check(nW > 0 && len(keys) > nW, "both-sides-found", nil, nil, "the lookup stage stores and the filtering stage reads TagFilterResult", fmt.Sprintf("%d writes, %d reads", nW, len(keys)-nW))
+		enc := func(k ssa.Value) string {
+			name := ""
+			eng.WalkExpr(k, func(x ssa.Value) bool {
+				if cl, ok := x.(*ssa.Call); ok && name == "" {
+					ks := p.CalleeKeys(cl)
+					if len(ks) > 0 && !strings.HasPrefix(ks[0], "builtin:") {
+						name = ks[0]
+					}
+				}
+				return true
+			})
+			return name
+		}
+		first := ""
+		for i, k := range keys {
+			e := enc(k)
+			if i == 0 {
+				first = e
+			}
+			side := "store"
+			if i >= nW {
+				side = "read"
+			}
+			c.Check(inList(e, injective), fmt.Sprintf("injective-key:%s[%d]", side, i), at[i], at[i].Parent(),
+				"the key of an atomic filter's result distinguishes every two different filters (built by an encoder from the injective table): two atoms of one condition that share a key share a result, and the selected series differ from evaluating the condition",
+				"the key is built by "+e)
+			c.Check(e == first, fmt.Sprintf("same-encoder-on-both-sides[%d]", i), at[i], at[i].Parent(), "store and read build the key the same way", e+" vs "+first)
+		}
+	})
+
 	c.Rule("ORDER", "index{memory read < snapshot}", func() {
 		memoryBeforeSnapshot(c, []orderedReader{
 			{"index.invertedIndex.getSeriesIDs", "index.invertedIndex", invokeOn(".family", "GetSnapshot"), true},
